@@ -114,6 +114,12 @@ CLAIMED["C01"] = dict(
     text="Proved: the app hash is a function of the name-sorted substore commit ids, so Go's map iteration order at Commit cannot reach it. Checked on the implementation: every generated history is replayed on a fresh instance, on an instance stopped after a random Commit and reopened from its DB, and with CheckTx/Simulate/Query traffic interleaved; codes, data, events, validator updates and app hashes must be identical; an uninterrupted twin multistore must commit identical hashes.",
     note="Trusted: Coq kernel, Go drivers. That map order, the validator decode cache and the goroutine-driven IAVL iterator are the only nondeterminism sources is checked by the differential runs, not proved.",
     design_ref="§6 C01")
+CLAIMED["C19"] = dict(
+    engine="keys",
+    technique="Coq proof over ideal primitives (multisig verification <-> every key signed in its own position, recursively; keybase state machine: wrong passphrase changes nothing, export/import round trip) + differential correspondence with real ed25519/secp256k1 keys, nested multisig keys and the real keybase",
+    text="Proved on a model with ideal signatures and ideal authenticated encryption: VerifyBytes of an N-of-N positional multisig key succeeds iff there are exactly N signatures and the i-th verifies under the i-th key (nested keys recursively); a wrong passphrase never yields a key and never deletes or alters one; export then import gives the same key and address. The model is compared with the real code on thousands of key/signature trees with mutations and on keybase histories.",
+    note="Trusted: Coq kernel, extraction, OCaml/Go drivers. PARTIAL by nature: 'verifies under no other key or message' is unforgeability of ed25519/secp256k1, and 'wrong passphrase never yields a key' is authenticity of scrypt+AES-GCM; both are hypotheses of the model (ideal primitives), exercised but not proved.",
+    design_ref="§6 C19")
 REASON_NOT_YET = "check not built yet in this round (design in DESIGN.md §6); will be claimed once its model, theorems and correspondence engine exist"
 
 def main():
@@ -150,6 +156,8 @@ def main():
              "kind_free_text": "real BaseApp+auth+pos+gov on MemDB driven through ABCI with an emulated Tendermint set; state decoded from raw stores after every op; compared with the extracted L1 model and checked by property oracles"},
             {"name": "ms", "path": "harness/cmd/ms", "serves_properties": ["C12","C13","C14","C01"],
              "kind_free_text": "rootmulti+iavl+transient over a crash-instrumented MemDB: write/commit/reopen/LoadVersion/query histories, crash after every write unit, uninterrupted twin"},
+            {"name": "keys", "path": "harness/cmd/keys", "serves_properties": ["C19"],
+             "kind_free_text": "real keys, nested multisig verification with mutated signature trees, keybase op histories vs the ideal-primitive model"},
             {"name": "kv", "path": "harness/cmd/kv", "serves_properties": ["C15", "C16"],
              "kind_free_text": "random programs on random stackings of cachekv/prefix/gaskv/tracekv over MemDB vs the extracted Coq store model"},
         ],
